@@ -101,9 +101,9 @@ CLAIMED = {
                 "fails the call. Tie: exhaustive WF 2-maps n<=3/4 x all sews x value patterns with free-term attribute values on the "
                 "real CMap2 vs the model; Python oracle recomputes CELLS independently and checks merge/split placement per cell.",
         "note": "Trusted: Lean kernel + 3 standard axioms; hand-written model. Cell level (Props/C04Cells*.lean, cell calculus in "
-                "Lemmas/CellCalc.lean): for 1-sew, 1-unsew, 2-sew of two darts with successors and every arm of 2-unsew the computed ids ARE "
-                "the minima of the cells and 'new cell = union of the two old cells, every other cell unchanged' is a theorem; for the "
-                "three degenerate 2-sew arms (a dart without successor) the identification is evaluated by the oracle only.",
+                "Lemmas/CellCalc.lean): for 1-sew, 1-unsew, all four arms of 2-sew and every arm of 2-unsew the computed ids ARE "
+                "the minima of the cells and 'new cell = union of the two old cells, every other cell unchanged' is a theorem (for the "
+                "2-sew of two darts with successors the minima statement is under the property's proviso).",
         "design_ref": "DESIGN.md §7 C04",
     },
     "C09": {
